@@ -117,7 +117,7 @@ class SPDom(Domain):
         return ("expr", norm(arg))
 
     # ------------------------------------------------------------- events
-    def on_for(self, st, node):
+    def on_for(self, st, node, first=True):
         # SP5: the soft fallback loop walks the priority-sorted soft list itself, in order
         if self.soft and self.role == "randomize" and self.loop_has_sat(node) and self.soft in names_in(node.iter):
             self.elem_loops_seen.add(node.lineno)
@@ -136,9 +136,12 @@ class SPDom(Domain):
         for k, v in st.facts:
             if k == key:
                 if v:
-                    return [("enter", st), ("exit", st)]    # non-empty: >=1 iteration then exit
+                    # non-empty: the first evaluation enters; later ones may leave
+                    return [("enter", st)] if first else [("enter", st), ("exit", st)]
                 return [("exit", st)]
         # first encounter: decide emptiness
+        if not first:
+            return [("enter", st), ("exit", st)]
         ne = st._replace(facts=st.facts | {(key, True)})
         em = st._replace(facts=st.facts | {(key, False)})
         return [("enter", ne), ("exit", em)]
